@@ -534,7 +534,7 @@ impl PartialDSet {
         requires self.inv(), i <= self.dim, 1 <= d <= self.size,
         ensures r == self.t(i as int, d as int)
     {
-        proof { reveal(tbl); }
+        proof { assert(self.t(i as int, d as int) == self.op@[sidx(self.dim as int, i as int, d as int)] as int) by { reveal(tbl); } }
         self.op[self.idx(i, d)]
     }
     //@ end
@@ -728,7 +728,12 @@ impl SimpleDSet {
         requires self.inv(), i <= self.dim, 1 <= d <= self.size,
         ensures r == self.t(i as int, d as int), 1 <= r <= self.size, self.t(i as int, r as int) == d,
     {
-        proof { reveal(tbl); }
+        proof {
+            // the invariant is used with `tbl` opaque (its trigger is the table entry, not the nonlinear index); `tbl` is unfolded for
+            // the one entry that is read
+            assert(1 <= self.t(i as int, d as int) <= self.size && self.t(i as int, self.t(i as int, d as int)) == d);
+            assert(self.t(i as int, d as int) == self.op@[sidx(self.dim as int, i as int, d as int)] as int) by { reveal(tbl); }
+        }
         self.op[self.idx(i, d)]
     }
     //@ end
